@@ -505,4 +505,27 @@ theorem stale_task_witness :
      | some (_, evs) => countAttempts evs
      | none => 0) = 3 := by decide
 
+/-! ### nothing is carried from one effort to the next (session 4) -/
+
+/-- **Every effort starts from `reconnection_delay`.**  Whatever happened before (any history of
+    connects, losses, efforts that succeeded, gave up or were aborted), the (k+1)-th wait of the
+    effort a later loss starts is given by the closed form with `k` counted from the start of THAT
+    effort and the configuration the client was created with: nothing is carried from one effort
+    to the next. -/
+theorem every_effort_from_initial_delay {P : Type} (c0 c : Cli P) (is : List (Input P))
+    (evs : List (Ev P)) (hrun : run c0 is = some (c, evs)) (s : Stored P) (sc : Script)
+    (k : Nat) (w : Q)
+    (h : (effort c.cfg s sc.outs sc.rands sc.abortAt sc.fuel).1.waits[k]? = some w) :
+    w = min (c0.cfg.delay * 2 ^ k) c0.cfg.delayMax + c0.cfg.rf * (2 * sc.rands k - 1) := by
+  rw [run_cfg is c0 c evs hrun] at h
+  exact delay c0.cfg _ sc.rands sc.abortAt sc.fuel k w h
+
+-- non-vacuity: a history whose first effort fails twice and then reconnects, followed by a second
+-- effort on the same client: the waits of the second effort are 1, 2 again (not 4, 5)
+example :
+    (match run (Cli.init cfgThree : Cli Nat) [.connect stored0, .lose .transportError scSecond] with
+     | some (c, _) => (effort c.cfg stored0 scSecond.outs scSecond.rands scSecond.abortAt scSecond.fuel
+                        : Res × List (Ev Nat)).1.waits
+     | none => []) = [1, 2] := by decide +kernel
+
 end Sio.C10
